@@ -341,6 +341,16 @@ func stackageStructsEqual(x, y any) (tried bool, err error) {
 		}
 	}
 
+	if !tried {
+		// y alone is a Stack/Condition (or alias): that is a
+		// mismatch, not a pair of foreign structs.
+		if _, ok := conditionTypeAliasConverter(y); ok {
+			tried = true
+		} else if _, ok := stackTypeAliasConverter(y); ok {
+			tried = true
+		}
+	}
+
 	err = errorf("Cannot compare stackage instances, cannot convert")
 
 	return
@@ -403,8 +413,13 @@ func structsEqual(x, y any) (err error) {
 		ytf := yrt.Field(i)
 		yvf := yrv.Field(i)
 
-		if !xtf.IsExported() && !ytf.IsExported() {
-			continue
+		if !xtf.IsExported() || !ytf.IsExported() {
+			if !xtf.IsExported() && !ytf.IsExported() {
+				continue
+			}
+			// Interface() on the unexported one would panic
+			err = errorf("Struct field visibility mismatch")
+			return
 		}
 
 		xn := xtf.Name
